@@ -116,7 +116,7 @@ class G:
         m, s = self.id("m"), self.id("s")
         n = self.r.randrange(3, 9)
         return ("let %(m)s = new Map(), %(s)s = new Set(); for (let i = 0; i < %(n)d; i++) { %(m)s.set({key: i}, [i, {v: i * 2}]); %(m)s.set(\"k\" + i, i); %(s)s.add([i]); } "
-                "let out = []; %(m)s.forEach((v, k, mm) => { %(g)s if (typeof k === \"object\" && k.key %% 2) { mm.delete(k); mm.set({key: k.key + 100}, [k.key]); } out.push(show(v)); }); "
+                "let out = []; %(m)s.forEach((v, k, mm) => { %(g)s if (typeof k === \"object\" && k.key %% 2 && k.key < 100) { mm.delete(k); mm.set({key: k.key + 100}, [k.key]); } out.push(show(v)); }); "
                 "print(\"map\", out.join(\";\"), %(m)s.size); let it = %(s)s.values(); it.next(); %(g1)s %(s)s.delete([...%(s)s][1]); %(s)s.add({late: 1}); "
                 "print(\"set\", [...it].map(show).join(\";\")); %(inner)s print(\"map-keys\", [...%(m)s.keys()].map(show).join(\",\"));"
                 ) % dict(m=m, s=s, n=n, g=self.maybe_gc(0.25), g1=self.maybe_gc(), inner=self.inner(d))
@@ -156,7 +156,7 @@ class G:
                 ) % dict(s=s, n=n, g=self.maybe_gc(0.15), g1=self.maybe_gc(), inner=self.inner(d))
 
     def sc_json(self, d):
-        return ("let txt = JSON.stringify({a: [1, {b: \"x\"}, [null]], c: {d: {e: [true]}}, big: \"%(pad)s\"}, (k, v) => { %(g)s return typeof v === \"number\" ? {n: v} : v; }, 1); "
+        return ("let txt = JSON.stringify({a: [1, {b: \"x\"}, [null]], c: {d: {e: [true]}}, big: \"%(pad)s\"}, (k, v) => { %(g)s return k !== \"n\" && typeof v === \"number\" ? {n: v} : v; }, 1); "
                 "print(\"json\", txt.length); let back = JSON.parse(txt, function (k, v) { %(g1)s if (Array.isArray(v)) v.push({added: k}); return v; }); "
                 "print(\"json2\", show(back.a), show(back.c)); %(inner)s print(\"json3\", JSON.stringify({toJSON() { %(g2)s return [new Map(), {t: 1}]; }}));"
                 ) % dict(pad="p" * self.r.randrange(0, 40), g=self.maybe_gc(0.15), g1=self.maybe_gc(0.15), g2=self.maybe_gc(), inner=self.inner(d))
@@ -172,7 +172,7 @@ class G:
     def sc_destructure(self, d):
         it = self.id("iter")
         return ("let closed = []; let %(it)s = { [Symbol.iterator]() { let i = 0; return { next() { %(g)s i++; return {done: i > 5, value: {i, arr: [i]}}; }, return(v) { closed.push(i); return {}; } }; } }; "
-                "let [a, {i: b}, , ...rest] = %(it)s; let [c] = %(it)s; let {x: {y = [%(lit)s]} = {}, ...others} = {p: {q: 1}, r: [2], x: {}}; %(g1)s "
+                "let [a, {i: b}, , ...rest] = %(it)s; let [c] = %(it)s; let {x: xx = {}, ...others} = {p: {q: 1}, r: [2], x: {}}; let {y = [%(lit)s]} = xx; %(g1)s "
                 "print(\"destr\", show(a), b, rest.length, show(c), show(y), show(others), closed.join()); %(inner)s "
                 "function dp({k = {def: 1}, ...o} = {}, [h = [], ...t] = %(it)s) { return [k, o, h, t.length]; } print(\"destr2\", show(dp({z: 1})), show(dp()));"
                 ) % dict(it=it, lit=self.lit(), g=self.maybe_gc(0.15), g1=self.maybe_gc(), inner=self.inner(d))
